@@ -62,6 +62,9 @@ AplBnd == << <<>>,
              << Apl(2, FALSE, 128, [i \in 1..16 |-> i]) >>,
              << Apl(2, TRUE, 8, <<255>> \o Rep(15, 0)) >>,
              << Apl(2, FALSE, 0, Rep(16, 0)) >>,
+             << Apl(1, FALSE, 20, <<10, 1, 255, 255>>) >>,             \* host bits beyond the prefix are not sent
+             << Apl(1, TRUE, 1, Rep(4, 255)), Apl(1, FALSE, 31, Rep(4, 255)), Apl(1, FALSE, 0, <<1, 2, 3, 4>>) >>,
+             << Apl(2, FALSE, 57, Rep(16, 255)), Apl(2, TRUE, 121, Rep(16, 255)), Apl(2, FALSE, 9, <<255, 255>> \o Rep(14, 1)) >>,
              << Apl(1, FALSE, 8, <<127, 0, 0, 0>>), Apl(2, TRUE, 64, <<32, 1, 13, 184>> \o Rep(12, 0)), Apl(1, TRUE, 0, Z4) >> >>
 
 Opt(c, f) == [code |-> c, f |-> f]
@@ -203,7 +206,13 @@ Subnet(fam, mask, scope, addr) == [Family |-> fam, SourceNetmask |-> mask, Sourc
 SubnetCases == << Subnet(1, 0, 0, Z4), Subnet(1, 1, 0, <<128, 0, 0, 0>>), Subnet(1, 8, 0, <<10, 0, 0, 0>>),
                   Subnet(1, 9, 8, <<10, 128, 0, 0>>), Subnet(1, 24, 32, <<192, 0, 2, 0>>), Subnet(1, 32, 0, <<192, 0, 2, 255>>),
                   Subnet(2, 0, 0, Rep(16, 0)), Subnet(2, 56, 48, <<32, 1, 13, 184, 0, 1, 2>> \o Rep(9, 0)),
-                  Subnet(2, 128, 128, [i \in 1..16 |-> 16 * i - 1]) >>
+                  Subnet(2, 128, 128, [i \in 1..16 |-> 16 * i - 1]),
+                  \* prefixes that end inside an octet, addresses with bits set beyond the prefix: only the prefix travels
+                  Subnet(1, 1, 0, Rep(4, 255)), Subnet(1, 7, 0, Rep(4, 255)), Subnet(1, 9, 0, <<10, 255, 255, 255>>),
+                  Subnet(1, 20, 0, <<172, 31, 255, 254>>), Subnet(1, 31, 24, <<192, 0, 2, 255>>), Subnet(1, 24, 0, <<192, 0, 2, 77>>),
+                  Subnet(1, 0, 0, <<1, 2, 3, 4>>), Subnet(1, 8, 0, <<10, 1, 2, 3>>),
+                  Subnet(2, 57, 0, Rep(16, 255)), Subnet(2, 63, 0, <<32, 1, 13, 184>> \o Rep(12, 255)),
+                  Subnet(2, 121, 64, Rep(16, 255)), Subnet(2, 1, 0, Rep(16, 255)), Subnet(2, 64, 0, [i \in 1..16 |-> 255 - i]) >>
 OptsMsg(c, i, j) ==
   LET es == OptLayoutOf(c) IN
   IF c = 8 THEN Msg(H0, <<Q1>>, <<>>, <<>>, << OptRR(0, << Opt(8, SubnetCases[j]) >>) >>)
